@@ -74,6 +74,9 @@ def judge(c):
         out.append(("M:model-expansion-differs-from-model-manual", ""))
     if "t_expand" in r:
         te, tf, tp = r["t_expand"], r["t_front"], r["t_plain"]
+        if te[0] != "ok" and r["vm_s"].startswith("ok") and "`" in c["src"]:
+            # never skip the tree comparison silently (e.g. the compiler's trace line was renamed)
+            out.append(("M:expanded-tree-unavailable", te[1][:200]))
         if te[0] == "ok":
             if te[2] != "same":
                 out.append(("M:harness-replica-differs-from-compiler", te[2][:300]))
@@ -115,6 +118,9 @@ def main(ctx, args):
     if not extract(ctx):
         ctx.finish()
     proved = prove(ctx, MODULES, drivers=["drv_c09"])
+    if not proved:
+        # a broken obligation: keep the drivers of the last good build and search for a concrete failing input
+        lake_build(["drv_c09"])
     if proved and ctx.tier == "thorough":
         proved = leancheck(ctx, MODULES)
     if not build_harness(ctx, bins=["c09", "runprog"]):
